@@ -249,3 +249,15 @@ def aff_linefunc(P1, P2, T):
         m = (x1 * x1 * 3) / (y1 * 2)
         return m * (xt - x1) - (yt - y1)
     return xt - x1
+
+
+def structured_scales(like):
+    """non-random projective scalings that random sampling never hits: base-field constants, -1, i, 1+i, 9+i and
+    base-field multiples of them (the twist embeddings use 1+i / 9+i)"""
+    p = like.p
+    if isinstance(like, O.Fp2):
+        return [O.Fp2(1, 0, p), O.Fp2(p - 1, 0, p), O.Fp2(3, 0, p), O.Fp2(0, 1, p), O.Fp2(1, 1, p), O.Fp2(9, 1, p),
+                O.Fp2(9 * 7, 7, p), O.Fp2(5, 5, p), O.Fp2(p - 9, p - 1, p)]
+    if isinstance(like, O.Fp):
+        return [O.Fp(1, p), O.Fp(p - 1, p), O.Fp(2, p), O.Fp(3, p)]
+    return [like.like(1), like.like(3)]
